@@ -223,6 +223,77 @@ def features(case, impl):
     return f
 
 
+def exhaustive_instances():
+    """All networks of a small family: 2 locations, one type, one depot per location (ample), trips of one grid step
+    between the two locations starting at one of 4 grid points (8 possible trips), every subset of at most 4 trips,
+    minimal shunting in {0, 600}, dead-head time in {0, 600}."""
+    import itertools
+    grid = 600
+    possible = [(o, t) for o in (0, 1) for t in range(4)]
+    out = []
+    for k in range(1, 5):
+        for sub in itertools.combinations(possible, k):
+            for shunt in (0, 600):
+                for dh in (0, 600):
+                    inst = {
+                        "vehicleTypes": [{"id": "T0", "capacity": 100, "seats": 50}],
+                        "locations": [{"id": "L0"}, {"id": "L1"}],
+                        "depots": [{"id": "dep0", "location": "L0", "capacity": 50, "allowedTypes": [{"vehicleType": "T0"}]},
+                                   {"id": "dep1", "location": "L1", "capacity": 50, "allowedTypes": [{"vehicleType": "T0"}]}],
+                        "routes": [{"id": "r0", "vehicleType": "T0", "segments": [
+                            {"id": "r0s", "order": 0, "origin": "L0", "destination": "L1", "distance": 1000, "duration": grid}]},
+                            {"id": "r1", "vehicleType": "T0", "segments": [
+                                {"id": "r1s", "order": 0, "origin": "L1", "destination": "L0", "distance": 1000, "duration": grid}]}],
+                        "departures": [{"id": "d%d" % n, "route": "r%d" % o, "segments": [
+                            {"id": "d%d_s" % n, "routeSegment": "r%ds" % o, "departure": instgen.iso(3600 + grid * t),
+                             "passengers": 10, "seated": 5}]} for n, (o, t) in enumerate(sub)],
+                        "deadHeadTrips": {"indices": ["L0", "L1"], "durations": [[0, dh], [dh, 0]], "distances": [[0, 500], [500, 0]]},
+                        "parameters": {"shunting": {"minimalDuration": shunt, "deadHeadTripDuration": 0},
+                                       "costs": {"staff": 1, "serviceTrip": 2, "deadHeadTrip": 5, "idle": 1}},
+                    }
+                    out.append(inst)
+    return out
+
+
+def all_chains(obs, nodes):
+    """every connectable chain (in time order) over the given nodes"""
+    nodes = sorted(nodes, key=lambda n: (obs.start_key(n), n))
+    chains = []
+
+    def ext(chain, rest):
+        for i, n in enumerate(rest):
+            if not chain or n in obs.reach.get(chain[-1], set()):
+                c = chain + [n]
+                chains.append(c)
+                ext(c, rest[i + 1:])
+    ext([], nodes)
+    return chains
+
+
+def run_exhaustive_case(args):
+    d, k, inst = args
+    obs, st0 = netobs.observe(inst, d, "x%d" % k)
+    if not obs.ok:
+        return None
+    trips = list(obs.svc.get(0, []))
+    chains = all_chains(obs, trips)
+    sd, ed = obs.sdepots[0], obs.edepots[-2] if len(obs.edepots) > 1 else obs.edepots[0]
+    tours = []
+    for c in chains:
+        for dummy in (False, True):
+            tour_nodes = c if dummy else [sd] + c + [ed]
+            calls = []
+            for p in chains:
+                calls.append(["insert"] + p)
+                calls.append(["insert", obs.sdepots[1]] + p + [obs.edepots[0]])
+            for i in range(len(tour_nodes)):
+                for j in range(i, len(tour_nodes)):
+                    calls.append(["remove", tour_nodes[i], tour_nodes[j]])
+                    calls.append(["subpath", tour_nodes[i], tour_nodes[j]])
+            tours.append({"ty": 0, "base": [sd] + c + [ed], "dummy": dummy, "calls": calls})
+    return run_tours(d, 100000 + k, inst, obs, tours)
+
+
 def main(tier, seed):
     t0 = time.time()
     proof = lib.check_property_file(PID)
@@ -237,6 +308,12 @@ def main(tier, seed):
     results = []
     results += lib.pmap(lambda a: run_corpus_case(d, *a), list(enumerate(insts)))
     results += lib.pmap(run_case, [(d, 1000 + k, inst, seed) for k, inst in enumerate(gen)])
+    nexh = 0
+    if tier == "thorough" and not os.environ.get("VERIF_REPLAY"):
+        xs = exhaustive_instances()
+        xr = [r for r in lib.pmap(run_exhaustive_case, [(d, k, inst) for k, inst in enumerate(xs)]) if r]
+        nexh = len(xr)
+        results += xr
     results = [r for r in results if not r.get("skipped")]
     ncalls = sum(len(t["calls"]) for r in results for t in r["tours"])
     return lib.conclude_diff(PID, tier, seed, t0, proof, results,
@@ -244,7 +321,11 @@ def main(tier, seed):
                              what="Tour operations on tours taken from Schedule::tour_of: insert_path, remove, sub_path, "
                                   "conflict, latest_not_reaching_node, check_removable, replace_*_depot, overheads, "
                                   "maintenance_counter (node lists and the five caches)",
-                             extra_cov={"tour_calls": ncalls}, check_pair=check_impl_with_spec)
+                             extra_cov={"tour_calls": ncalls, "exhaustive_family_instances": nexh,
+                                        "exhaustive": False,
+                                        "exhaustive_note": "thorough tier enumerates completely the family described in "
+                                        "exhaustive_instances(): all tours (real and dummy), all chains as inserted paths "
+                                        "(with and without depots), all segments"}, check_pair=check_impl_with_spec)
 
 
 def run_corpus_case(d, k, case):
